@@ -6,7 +6,22 @@ use crate::TokenKind;
 
 pub fn lex_email_address(source: &[char]) -> Option<FoundToken> {
     // Location of the @ sign
-    let (at_loc, _) = source.iter().enumerate().rev().find(|(_, c)| **c == '@')?;
+    // Unless the local part is quoted, an address cannot contain whitespace, so an `@` beyond it
+    // belongs to some later text.
+    let limit = if source.first() == Some(&'"') {
+        source.len()
+    } else {
+        source
+            .iter()
+            .position(|c| c.is_whitespace())
+            .unwrap_or(source.len())
+    };
+
+    let (at_loc, _) = source[..limit]
+        .iter()
+        .enumerate()
+        .rev()
+        .find(|(_, c)| **c == '@')?;
 
     let local_part = &source[0..at_loc];
 
